@@ -29,9 +29,9 @@ def vt(cfg):
     return _VT[k]
 
 
-def judge_cut(data, k, cfg, full, clean_ends=None):
+def judge_cut(data, k, cfg, full, clean_ends=None, kind="bytesio"):
     """full = item_sigs of the uncut run.  Returns [(key, detail)]."""
-    r = run_reader(data[:k], cfg)
+    r = run_reader(data[:k], cfg, stream=None if kind == "bytesio" else streams.STREAM_KINDS[kind](data[:k]))
     out = []
     if r.raised is not None:
         out.append((f"raised|{type(r.raised).__name__}", f"cut={k}: {r.raised}"))
@@ -55,23 +55,23 @@ def judge_cut(data, k, cfg, full, clean_ends=None):
     return out, r
 
 
-def judge_stream(data, cfg, clean_ends, acc, case_base):
-    r0 = run_reader(data, cfg)
+def judge_stream(data, cfg, clean_ends, acc, case_base, kind="bytesio"):
+    r0 = run_reader(data, cfg, stream=None if kind == "bytesio" else streams.STREAM_KINDS[kind](data))
     acc.evaluations += 1
     if r0.raised is not None or r0.horizon:
         acc.extra["uncut_run_failed(judged by C08)"] += 1
         return
     full = item_sigs(r0)
     for k in range(len(data) + 1):
-        out, r = judge_cut(data, k, cfg, full, clean_ends)
+        out, r = judge_cut(data, k, cfg, full, clean_ends, kind)
         acc.evaluations += 1
         acc.transitions += len(r.items) + 1
         acc.nstates += 1  # (stream, cut) crash point
         acc.outcomes[(len(full), len(r.items))] += 1
         for key, detail in out:
             case = dict(case_base)
-            case.update(cut=k, cfg=cfg)
-            acc.violation(key, case, detail)
+            case.update(cut=k, cfg=cfg, kind=kind)
+            acc.violation(key + ("" if kind == "bytesio" else f"|stream={kind}"), case, detail)
 
 
 def replay_case(case):
@@ -80,7 +80,11 @@ def replay_case(case):
     r0 = run_reader(data, cfg)
     full = item_sigs(r0)
     clean_ends = case.get("clean_ends")
-    return judge_cut(data, case["cut"], cfg, full, clean_ends)[0]
+    kind = case.get("kind", "bytesio")
+    if kind != "bytesio":
+        full = item_sigs(run_reader(data, cfg, stream=streams.STREAM_KINDS[kind](data)))
+    out = judge_cut(data, case["cut"], cfg, full, clean_ends, kind)[0]
+    return [(k + ("" if kind == "bytesio" else f"|stream={kind}"), d) for k, d in out]
 
 
 def clean_ends_of(seq, cfg):
@@ -100,6 +104,15 @@ def eval_block(block, acc):
         for data in streams.iter_block(tuple(block[1]) if block[1][0] == "short" else ("pre", block[1][1], block[1][2])):
             for cfg in CFGS:
                 judge_stream(data, cfg, None, acc, {"stream": data.hex()})
+    elif block[0] == "kinds":
+        # other kinds of stream object: pipe-like (tell/seek raise) and minimal (read/readline only)
+        first = block[1]
+        for seq in [(first,)] + [(first, t) for t in ALPHABET]:
+            data = streams.seq_bytes(seq)
+            for kind in ("nonseekable", "minimal"):
+                for cfg in CFGS[:2]:
+                    judge_stream(data, cfg, clean_ends_of(seq, cfg), acc, {"stream": data.hex(), "tokens": list(seq), "clean_ends": clean_ends_of(seq, cfg)}, kind)
+        return
     elif block[0] == "long":
         L = block[1]
         seqs = [(L,)] + [(a, L) for a in streams.LONG_NEIGHBOURS] + [(L, b) for b in streams.LONG_NEIGHBOURS]
@@ -129,6 +142,7 @@ def run_tier(tier, t0):
     blocks = [("bytes", list(b)) for b in streams.byte_blocks(L)]
     blocks += [("tokens", None, 0)] + [("tokens", f, k) for f in ALPHABET]
     blocks += [("long", L) for L in streams.LONG_NAMES]
+    blocks += [("kinds", f) for f in streams.FRAME_TOKENS + streams.FRAG_TOKENS]
     if not q:
         # depth 4 restricted to frame tokens (clean and rejected), all cuts
         pass
@@ -140,7 +154,7 @@ def run_tier(tier, t0):
             f"over {len(ALPHABET)} tokens (frames, noise, fragments) x {len(CFGS)} configurations (ignore / log+handler x validate 0/1). "
             "distinct_nontrivial = distinct (items of uncut run, items of cut run) pairs"
         ),
-        assumptions=["io.BytesIO(S[:k]) models a stream that ends after k bytes", "parsed items compared by type, str() and serialize()"],
+        assumptions=["io.BytesIO(S[:k]) models a stream that ends after k bytes; token sequences of <= 2 are also read through a pipe-like stream (tell/seek raise) and a minimal read/readline-only object", "parsed items compared by type, str() and serialize()"],
         vacuity=[
             ("some cut run delivered fewer items than the uncut run", any(a > b for (a, b) in acc.outcomes)),
             ("clean sequences were explored", acc.extra["clean_sequences"] > 0),
